@@ -285,8 +285,8 @@ def s7(ctx, rep):
         if ok:
             a0, a1 = g.iter.args
             ok = U(a0) == "rung_levels"
-            ds = [d for d in local_defs(f, U(a1)) if not isinstance(d, tuple)]
-            ok = ok and len(ds) == 1 and U(ds[0]).replace(" ", "") == "rung_levels[1:]+[max_t]"
+            from ..engine import deref
+            ok = ok and U(deref(f, a1)).replace(" ", "") == "rung_levels[1:]+[max_t]"
         why = f"promote_quantiles = {U(lc)} with second list {U(argn(g.iter, 1)) if isinstance(g.iter, ast.Call) and len(g.iter.args) > 1 else '?'}"
     rep.put(ok, "S7", "agreement", "HyperbandBracketManager.__init__: q_j = level_j / level_{j+1} (last: / max_t)", f, pq[0] if pq else None, "",
             why + ": the promotion quantile is not level / next level")
